@@ -13,8 +13,9 @@ import time
 
 VERIF = os.path.dirname(os.path.dirname(os.path.abspath(__file__)))
 SPEC = os.path.join(VERIF, "spec")
-WORK = os.path.join(VERIF, ".work")
-EVID = os.path.join(VERIF, "evidence")
+# a mutant / side run can be redirected away from the committed evidence and the default work directory
+WORK = os.environ.get("VERIF_WORK") or os.path.join(VERIF, ".work")
+EVID = os.environ.get("VERIF_EVID") or os.path.join(VERIF, "evidence")
 TLA_CP = "/opt/veriftools/tla/tla2tools.jar:/opt/veriftools/tla/CommunityModules-deps.jar"
 NCPU = min(16, os.cpu_count() or 1)
 
